@@ -506,6 +506,10 @@ func ToRune(source []byte, pos int) rune {
 			break
 		}
 	}
+	if i < 0 {
+		// no rune start found(i.e. a sequence of continuation bytes)
+		i = 0
+	}
 	r, _ := utf8.DecodeRune(source[i:])
 	return r
 }
